@@ -65,6 +65,22 @@ class V3SigDefault(_Base):
         return time + 1
 
 
+class V3SigKwOnly(V3SigDefault):
+    """v3 signatures with time_resolution KEYWORD-ONLY and no **kwargs (mosaik passes it by keyword)."""
+
+    def init(self, sid, *, time_resolution="absent"):
+        LOG.append(["init", [sid], {"__got_time_resolution__": time_resolution != "absent"}])
+        return CONFIG["meta"]
+
+
+class V3SigKwargs(V3SigDefault):
+    """v3 signatures where init takes everything beyond the id as **kwargs."""
+
+    def init(self, sid, **params):
+        LOG.append(["init", [sid], dict({k: v for k, v in params.items() if k != "time_resolution"}, __got_time_resolution__="time_resolution" in params)])
+        return CONFIG["meta"]
+
+
 class OldSig(_Base):
     def init(self, sid, step_size=1):
         LOG.append(["init", [sid], {"step_size": step_size, "__got_time_resolution__": False}])
